@@ -241,6 +241,9 @@ func (e *Engine) iteValueCtx(ctx *mergeCtx, c *Term, a, b Value) (Value, bool) {
 	case FloatV:
 		y, ok := b.(FloatV)
 		return a, ok && x == y
+	case *OpaqueFloatV:
+		_, ok := b.(*OpaqueFloatV)
+		return a, ok
 	case *StrV:
 		y, ok := b.(*StrV)
 		if !ok {
